@@ -93,7 +93,8 @@ fn pair_rules(a: &str, b: &str, out: Option<&mut CaseOut>) -> Vec<(String, Strin
     }
     if both_valid && expected && ha != hb {
         rules.push(("parsed-equal-but-hash-differs".into(), "the texts parse to equal values but recon_hash differs".into()));
-    } else if cmp_ab && ha != hb {
+    } else if cmp_ab && cmp_ab == expected && ha != hb {
+        // (only when the comparison itself is right: a wrong `true` is reported above)
         rules.push(("compare-equal-but-hash-differs".into(), "compare_recon_values says equal but recon_hash differs".into()));
     }
     // ReconKey is a thin wrapper: report it only where it departs from the free functions, the
@@ -205,7 +206,15 @@ fn hash_diff_class(a: &str, b: &str) -> Option<String> {
 fn report(a: &str, b: &str, label: &str, rules: &[(String, String)], minimal: Option<(String, String)>, out: &mut CaseOut) {
     for (rule, what) in rules {
         let (ma, mb) = minimal.clone().unwrap_or((a.to_string(), b.to_string()));
-        let class = if rule.contains("hash-differs") { hash_diff_class(&ma, &mb) } else { None };
+        let strip = |t: &str| t.chars().filter(|c| !"{} \t".contains(*c)).collect::<String>();
+        let class = if rule.contains("hash-differs") {
+            hash_diff_class(&ma, &mb)
+        } else if rule.starts_with("compare-disagrees") && strip(&ma) == strip(&mb) {
+            // the two texts differ only in where braces (and blanks) stand
+            Some("brace-placement-only".to_string())
+        } else {
+            None
+        };
         out.violation(
             P,
             format!("{rule}/{}", class.as_deref().unwrap_or(label)),
@@ -495,28 +504,44 @@ pub fn run(s: &mut Session) {
     let groups: Vec<Vec<usize>> = groups.into_values().collect();
     s.note(format!("token-enum: {} distinct values, largest class {}", groups.len(), groups.iter().map(|g| g.len()).max().unwrap_or(0)));
     let stride = s.args.extra_u64("enum-stride").unwrap_or(if s.args.scale < 1.0 { (1.0 / s.args.scale) as u64 } else { 1 }).max(1);
+    // Second grouping, aimed at *false positives* of the comparator: strings that carry the same
+    // sequence of non-structural tokens (braces and blanks removed) are the ones an event-stream
+    // heuristic could confuse; all ordered pairs inside such a bucket are checked.
+    let mut buckets: std::collections::BTreeMap<Vec<u8>, Vec<usize>> = std::collections::BTreeMap::new();
+    for (i, (_, k, _, _)) in valid.iter().enumerate() {
+        let key: Vec<u8> = k.iter().copied().filter(|t| *t != 3 && *t != 4 && *t != 9).collect();
+        buckets.entry(key).or_default().push(i);
+    }
+    let mut groups = groups;
+    let n_classes = groups.len();
+    let bucket_list: Vec<Vec<usize>> = buckets.into_values().filter(|b| b.len() >= 2).collect();
+    s.note(format!("token-enum: {} same-leaf-sequence buckets, largest {}", bucket_list.len(), bucket_list.iter().map(|g| g.len()).max().unwrap_or(0)));
+    groups.extend(bucket_list);
     let rows: Vec<usize> = (0..groups.len()).step_by(stride as usize).collect();
     let cross = if s.args.thorough() { 40 } else { 6 };
+    let cap = if s.args.thorough() { 1200 } else { 300 };
     if crate::want(s, "token-enum-pairs") { s.part(
         "token-enum-pairs",
-        "every string of up to L tokens (L = 6; 3 when scaled down) over {@a ( ) { } , : 1 b space newline} that parses, grouped by parsed value; one case per value class: ALL ordered pairs inside the class (150 random partners per member when the class has more than 150 spellings; must compare equal, same recon_hash) and for every member 6 (thorough: 40) random valid strings of other classes (must compare unequal); non-trivial when the class has >= 2 spellings; distinct by class",
+        "every string of up to L tokens (L = 6; 3 when scaled down) over {@a ( ) { } , : 1 b space newline} that parses, grouped (1) by parsed value and (2) by the sequence of non-brace, non-blank tokens; one case per class / bucket: ALL ordered pairs inside it (300, thorough 1200, random partners per member when larger): compare == (parsed values equal), equal => same recon_hash; class members additionally meet 6 (thorough 40) random other strings; non-trivial when the group has >= 2 members; distinct by group",
         stride == 1,
         rows.len() as u64,
         |i, rng, out| {
             let group = &groups[rows[i as usize]];
+            let is_bucket = rows[i as usize] >= n_classes;
+            out.count(if is_bucket { "bucket_cases" } else { "class_cases" });
             let mut pairs: Vec<(usize, usize)> = Vec::new();
             for &x in group {
-                if group.len() <= 150 {
+                if group.len() <= cap {
                     for &y in group {
                         pairs.push((x, y));
                     }
                 } else {
                     out.count("large_class_sampled");
-                    for _ in 0..150 {
+                    for _ in 0..cap {
                         pairs.push((x, group[rng.usize_below(group.len())]));
                     }
                 }
-                for _ in 0..cross {
+                for _ in 0..(if is_bucket { 0 } else { cross }) {
                     pairs.push((x, rng.usize_below(valid.len())));
                     let l = pairs.len() - 1;
                     if rng.bool() {
@@ -527,7 +552,9 @@ pub fn run(s: &mut Session) {
             out.nontrivial = group.len() >= 2;
             out.events += pairs.len() as u64;
             out.add("pairs", pairs.len() as u64);
-            out.add("equal_pairs_spelled_differently", (group.len() * (group.len() - 1)) as u64);
+            if !is_bucket {
+                out.add("equal_pairs_spelled_differently", (group.len() * (group.len() - 1)) as u64);
+            }
             if i < 2 {
                 out.set_sample(json!({"class_value": format!("{:?}", valid[group[0]].2), "spellings": group.iter().take(8).map(|g| valid[*g].0.clone()).collect::<Vec<_>>()}));
             }
